@@ -177,7 +177,7 @@ CHECKS = {
         '64 bits as u64. Every getentropy() length is bounded by 256 through a guard of its path and the chunks add up to the request. '
         'proc_exit reaches exit(code). thread-spawn: counter starts at 1, one atomic fetch-add, negative result and no allocation without the '
         'wasi_thread_start export, start record = {newChild(instance), arg, id, export}, the thread body reads all fields before the single '
-        'free and calls start exactly once. A thread\'s instance takes the parent\'s descriptor of every module-defined shared memory, whatever its position in the memory index space (R15.6). Unknown clock ids include values whose low 8 / 16 bits are a known id.',
+        'free and calls start exactly once. A thread\'s instance takes the parent\'s descriptor of every module-defined shared memory, whatever its position in the memory index space (R15.6). Unknown clock ids include values whose low 8 / 16 bits are a known id. A copy that forks on the strings is decided on concrete vectors with empty strings in non-zero guest memory.',
    note='Clock monotonicity, randomness quality, that exit() terminates and thread scheduling are not decided; the /dev/random fallback '
         '(HAS_GETENTROPY=0 builds) is not analysed in the quick tier.',
    ref='DESIGN.md 4/C15'),
@@ -205,7 +205,7 @@ CHECKS = {
    technique='static lock-set consistency over partial-evaluation path summaries (ordered read/write/lock/unlock traces of the memory descriptor); mutex balance of every runtime function that takes the memory mutex in both atomics configurations; rendered InitMemories for every limits pair',
    text='On every shared path of wasmMemoryGrow all reads and writes of pages/size lie inside the single, balanced lock region of the '
         'memory mutex; shared memories are never reallocated or given a new data pointer; failed grows store nothing; the memory.size '
-        'template reads the page count through an accessor whose summary holds the mutex (a plain field read is reported). A size-publishing function clears storage only inside the lock region and before the page count is stored.',
+        'template reads the page count through an accessor whose summary holds the mutex (a plain field read is reported). A size-publishing function clears storage only inside the lock region and before the page count is stored. The memory.grow / memory.size templates hand the full 32-bit operand to the runtime (R18.7, shared with C05).',
    note='Decides the structural premises of linearizability (consistent lock set, balanced regions), not the interleaving semantics; '
         'pthread mutex semantics trusted; fairness not addressed.',
    ref='DESIGN.md 4/C18'),
